@@ -85,7 +85,7 @@ def split_byte_interval(
     # Group overlapping blocks so they can be processed as a unit.
     groups: List[BlockGroup] = []
     for block in sorted(
-        interval.blocks, key=lambda b: (b.offset, b.size != 0)
+        interval.blocks, key=lambda b: (b.offset, b.size != 0, b.size)
     ):
         block_end = block.offset + block.size
         if groups == [] or groups[-1].end <= block.offset:
@@ -222,7 +222,9 @@ def join_byte_intervals(
     if destination.address is not None:
         address = destination.address
     address += destination.size
-    last_block = max(destination.blocks, key=lambda b: b.offset, default=None)
+    last_block = max(
+        destination.blocks, key=lambda b: (b.offset, b.size), default=None
+    )
     last_module = last_block.module if last_block is not None else None
 
     def insert_padding(size):
@@ -288,7 +290,7 @@ def join_byte_intervals(
             module_alignment = {}
         node = min(
             (b for b in interval.blocks if b in module_alignment),
-            key=lambda b: (-module_alignment[b], b.offset),
+            key=lambda b: (-module_alignment[b], b.offset, b.size),
             default=interval,
         )
         if node == interval:
@@ -307,7 +309,9 @@ def join_byte_intervals(
         deltas[interval] = len(destination.contents)
         symexprs[interval] = dict(interval.symbolic_expressions)
         last_block = max(
-            interval.blocks, default=last_block, key=lambda b: b.offset
+            interval.blocks,
+            default=last_block,
+            key=lambda b: (b.offset, b.size),
         )
         if last_block is not None and last_block.module is not None:
             last_module = last_block.module
